@@ -71,6 +71,7 @@ func directStream(g *vlib.Rng) {
 		return map[string]interface{}{"op": "direct:" + fn, "raw": vlib.Hex(b)}
 	}
 	judge := func(fn string, b []byte, real, model string, modelNone func(string) bool) {
+		beat("exported helper "+fn+" called directly", nil)
 		r.Eval("direct:"+fn, fn+string(b))
 		cls := strings.Fields(real)[0]
 		switch {
@@ -206,6 +207,7 @@ func directStream(g *vlib.Rng) {
 			}()
 			rv, rerr = btc.ReadVLen(bytes.NewReader(b))
 		}()
+		beat("btc.ReadVLen called directly", nil)
 		r.Eval("direct:ReadVLen", "ReadVLen"+string(raw))
 		switch {
 		case rpan:
